@@ -265,4 +265,59 @@ def toLowerCase (E : Env) (r : Recv) (_args : List Val) : Res :=
 def toUpperCase (E : Env) (r : Recv) (_args : List Val) : Res :=
   withThis E r fun S => .str (S.flatMap upperUnit)
 
+/-! ## §15.5.5 / §15.5.5.2 / §8.12: the own properties of a String object whose value has the code units S:
+     the array indices below the length (value: that one unit; not writable, ENUMERABLE, not configurable),
+     "length" (not writable, not enumerable, not configurable) and the properties created on it. -/
+
+/-- names are Go strings (bytes); an index name is the canonical decimal numeral -/
+def isIndexBelow (S : List Nat) (name : List Nat) : Option Nat :=
+  match canonIndex name with
+  | some i => if i < S.length then some i else none
+  | none => none
+
+/-- the expandos that §8.12.5 [[Put]] actually creates, in creation order: "length" and the index names are
+    not writable (§8.12.4 [[CanPut]] is false), so assigning to them creates nothing -/
+def expandos (S : List Nat) : List (List Nat) → List (List Nat) → List (List Nat)
+  | acc, [] => acc
+  | acc, n :: rest =>
+    if n = sLength ∨ (isIndexBelow S n).isSome ∨ acc.contains n then expandos S acc rest
+    else expandos S (acc ++ [n]) rest
+
+/-- §15.5.5.2 [[GetOwnProperty]] ≠ undefined -/
+def hasOwn (S : List Nat) (exps : List (List Nat)) (name : List Nat) : Bool :=
+  (isIndexBelow S name).isSome || name == sLength || (expandos S [] exps).contains name
+
+/-- the decimal numeral of n as bytes -/
+def numeral (n : Nat) : List Nat := (Nat.toDigits 10 n).map (·.toNat)
+
+/-- all own property names: indices ascending, "length", expandos in creation order (ES5 fixes no order;
+    results are compared as sets) -/
+def ownNames (S : List Nat) (exps : List (List Nat)) : List (List Nat) :=
+  (List.range S.length).map numeral ++ [sLength] ++ expandos S [] exps
+
+/-- the enumerable ones (§15.2.3.14 Object.keys, §12.6.4 for-in over own properties) -/
+def keys (S : List Nat) (exps : List (List Nat)) : List (List Nat) :=
+  (List.range S.length).map numeral ++ expandos S [] exps
+
+/-- §8.10.4 FromPropertyDescriptor([[GetOwnProperty]](name)), same encoding as the model -/
+def desc (S : List Nat) (exps : List (List Nat)) (name : List Nat) : Res :=
+  match isIndexBelow S name with
+  | some i => .arr [[S.getD i 0], [0, 1, 0]]
+  | none =>
+    if name = sLength then .arr [[S.length], [0, 0, 0], []]
+    else if (expandos S [] exps).contains name then .arr [[1], [1, 1, 1], []]
+    else .undef
+
+/-- §15.2.4.7 propertyIsEnumerable -/
+def isEnumerable (S : List Nat) (exps : List (List Nat)) (name : List Nat) : Bool :=
+  (isIndexBelow S name).isSome || (expandos S [] exps).contains name
+
+/-- Object.defineProperty(o, name, {value: "x"}) then o[name] (§8.12.9 with the String [[GetOwnProperty]]):
+    an index below the length or "length" is not writable and not configurable and "x" is a different value
+    (for a one-unit value equal to "x" nothing changes) → TypeError; otherwise the property holds "x" -/
+def defineX (S : List Nat) (exps : List (List Nat)) (name : List Nat) : Res :=
+  match isIndexBelow S name with
+  | some i => if S.getD i 0 = 120 then .str [120] else .throwType
+  | none => if name = sLength then .throwType else let _ := exps; .str [120]
+
 end OttoVerif.C09.Spec
